@@ -59,6 +59,10 @@ def make_tx(rng, rate=None, nloc=None):
     # one transmission in five with stricter (documented) error budgets than the defaults: preamble 0..2 bit errors, frame prefix
     # 0..2 bit errors, 3..5 invalid bytes -- a clean transmission must not depend on the slack
     tx.cfg_extra = "pre=%d pfx=%d inv=%d" % (rng.below(3), rng.below(3), rng.range(3, 5)) if rng.chance(1, 5) else ""
+    # one in four with the AGC gain limits the documentation recommends for 16-bit input (and samedec uses): 1/32767 .. 1/200
+    # (amplitudes of at least 300: a maximum gain of 1/200 puts weaker signals outside the configured AGC range)
+    if rng.chance(1, 4) and tx.amp >= 300:
+        tx.cfg_extra = (tx.cfg_extra + " gmin=0.0000305185 gmax=0.005").strip()
     return tx
 
 
